@@ -1,5 +1,410 @@
 package main
 
-import "verifharness/hx"
+// Tier G: the real Conn.AsyncRead gate (ET + AsyncReadInPoller, not ONESHOT) under the cooperative scheduler.
+//
+// One managed thread plays the poller: it lets bytes arrive on the peer end of a real non-blocking socket pair, shuts the
+// peer's sending side down, and dispatches readiness events the way poller.readWriteLoop does (nbio.VerifRPAsyncEvent).
+// The read tasks handed to IOExecute run as managed threads.  Scheduling points: every acquisition of Conn.mux, every
+// atomic operation on readEvents / readEOF (overlay/rules_readpath.py) and explicit yields of the poller thread between
+// its steps.  The schedule is drawn from the case seed, so a case is replayed by its seed.
+//
+//	oracle (implementation alone): never two read tasks at once; readEvents in {0,1,2} at every operation; the run
+//	terminates (nobody spins); at the end everything that arrived was delivered, in order, exactly once; readEvents is 0
+//	or the connection was closed; after a half-close the connection is closed, and only after the last byte.
+//	correspondence: the recorded linearisation points, in the order they happened, are replayed as actions of the
+//	extracted gate LTS (coq/readpath/Gate.v): every action must be enabled in the model, and readEvents, the number of
+//	bytes delivered by every read, the close and the final delivered sequence must agree.
 
-func runGateTier(rep *hx.Report, seed int64, n int, only int64, mpath string) {}
+import (
+	"bytes"
+	"fmt"
+	"math/rand"
+	"strings"
+	"syscall"
+
+	"github.com/lesismal/nbio"
+	"github.com/lesismal/nbio/verifsched"
+	"verifharness/hx"
+)
+
+type gEvent struct {
+	Op    string `json:"op"` // arrive eof mark gate spawn read check dec
+	A     int    `json:"a,omitempty"`
+	B     int    `json:"b,omitempty"`
+	R     int    `json:"readEvents"`
+	Bytes []byte `json:"-"`
+	Th    string `json:"thread"`
+}
+
+type gateCase struct {
+	Seed     int64    `json:"case_seed"`
+	BufLen   int      `json:"read_buffer"`
+	Script   []string `json:"poller_script"`
+	Events   []string `json:"events,omitempty"`
+	Schedule []int    `json:"schedule,omitempty"`
+}
+
+func runGateTier(rep *hx.Report, seed int64, n int, only int64, mpath string) {
+	var model *hx.Model
+	if mpath != "" {
+		model = hx.StartModel(mpath)
+		defer model.Close()
+	} else {
+		rep.Stat("G.no-model")
+	}
+	defer func() { nbio.VerifReadHook = nil }()
+	if only >= 0 {
+		runGateCase(rep, only, model, true)
+		return
+	}
+	for i := 0; i < n && !rep.TooMany(); i++ {
+		runGateCase(rep, seed*1000003+int64(i), model, false)
+	}
+}
+
+func runGateCase(rep *hx.Report, cseed int64, model *hx.Model, verbose bool) {
+	r := rand.New(rand.NewSource(cseed))
+	fds, err := syscall.Socketpair(syscall.AF_UNIX, syscall.SOCK_STREAM|syscall.SOCK_NONBLOCK|syscall.SOCK_CLOEXEC, 0)
+	if err != nil {
+		hx.Fatal("socketpair: %v", err)
+	}
+	peer := fds[1]
+	peerOpen := true
+	defer func() {
+		if peerOpen {
+			syscall.Close(peer)
+		}
+	}()
+	bufLen := 1 + r.Intn(16)
+	gc := &gateCase{Seed: cseed, BufLen: bufLen}
+
+	g := nbio.NewEngine(nbio.Config{NPoller: 1, EpollMod: nbio.EPOLLET, AsyncReadInPoller: true, ReadBufferSize: bufLen})
+	nbio.VerifRPPrepareEngine(g, fds[0]+8)
+
+	var (
+		events    []gEvent
+		delivered []byte
+		sent      []byte
+		running   int
+		maxRun    int
+		started   int
+		ended     int
+		closedCb  int
+		badR      string
+		eofSent   bool
+		casRetry  int
+	)
+	var c *nbio.Conn
+	thName := func() string {
+		if t := verifsched.Self(); t != nil {
+			return t.Name
+		}
+		return "?"
+	}
+	rec := func(e gEvent) {
+		e.R = int(nbio.VerifReadEvents(c))
+		e.Th = thName()
+		if (e.R < 0 || e.R > 2) && badR == "" {
+			badR = fmt.Sprintf("readEvents = %d after %s (event %d)", e.R, e.Op, len(events))
+		}
+		events = append(events, e)
+	}
+	g.IOExecute = func(f func(*[]byte)) {
+		rec(gEvent{Op: "spawn"})
+		verifsched.Go(func() {
+			started++
+			running++
+			if running > maxRun {
+				maxRun = running
+			}
+			b := make([]byte, bufLen)
+			f(&b)
+			running--
+			ended++
+		})
+	}
+	g.OnDataPtr(func(_ *nbio.Conn, p *[]byte) { delivered = append(delivered, *p...) })
+	g.OnClose(func(_ *nbio.Conn, err error) { closedCb++ })
+	c = nbio.VerifRPNewConn(g, fds[0])
+	nbio.VerifReadHook = func(hc *nbio.Conn, op string, a, b int, ok bool) {
+		if hc != c {
+			return
+		}
+		switch op {
+		case "load":
+			if a >= 2 {
+				rec(gEvent{Op: "gate", A: a}) // the event is dropped: two units are already owed
+			}
+		case "cas":
+			if ok {
+				rec(gEvent{Op: "gate", A: a, B: b})
+			} else {
+				casRetry++
+			}
+		case "add":
+			rec(gEvent{Op: "dec", A: a})
+		case "eofload":
+			rec(gEvent{Op: "check", A: a})
+		case "eofstore":
+			rec(gEvent{Op: "mark"})
+		case "read":
+			rec(gEvent{Op: "read", A: a, B: b})
+		}
+	}
+
+	// the poller's script
+	nev := 2 + r.Intn(5)
+	half := r.Intn(3) > 0 // two thirds of the cases end with a half-close
+	type pstep struct {
+		kind string // arrive event eof
+		n    int
+		in   bool
+	}
+	var script []pstep
+	next := byte(1)
+	for e := 0; e < nev; e++ {
+		na := 1 + r.Intn(3)
+		for a := 0; a < na; a++ {
+			k := 1 + r.Intn(40)
+			switch r.Intn(5) {
+			case 0:
+				k = bufLen
+			case 1:
+				k = 2 * bufLen
+			case 2:
+				k = 1 + r.Intn(2*bufLen+2)
+			}
+			script = append(script, pstep{kind: "arrive", n: k})
+		}
+		script = append(script, pstep{kind: "event"})
+	}
+	if half {
+		for a := r.Intn(3); a > 0; a-- {
+			script = append(script, pstep{kind: "arrive", n: 1 + r.Intn(3*bufLen)})
+		}
+		script = append(script, pstep{kind: "eof", in: r.Intn(4) > 0})
+	}
+	for _, st := range script {
+		gc.Script = append(gc.Script, fmt.Sprintf("%s %d %v", st.kind, st.n, st.in))
+	}
+
+	var sched []int
+	s := verifsched.New(func(en []int) int {
+		k := r.Intn(len(en))
+		sched = append(sched, k)
+		return k
+	})
+	s.Exclusive = true
+	s.MaxSteps = 20000
+	s.Go("poller", func() {
+		for _, st := range script {
+			switch st.kind {
+			case "arrive":
+				b := make([]byte, st.n)
+				for i := range b {
+					b[i] = next
+					next++
+					if next == 0 {
+						next = 1
+					}
+				}
+				if _, err := syscall.Write(peer, b); err != nil {
+					hx.Fatal("gate: write to the peer end: %v", err)
+				}
+				sent = append(sent, b...)
+				rec(gEvent{Op: "arrive", A: st.n, Bytes: b})
+			case "event":
+				nbio.VerifRPAsyncEvent(c, true, false)
+			case "eof":
+				syscall.Shutdown(peer, syscall.SHUT_WR)
+				eofSent = true
+				rec(gEvent{Op: "eof"})
+				nbio.VerifRPAsyncEvent(c, st.in, true)
+			}
+			verifsched.Yield()
+			if r.Intn(3) == 0 {
+				verifsched.Yield()
+			}
+		}
+	})
+	terminated := s.Run()
+	nbio.VerifReadHook = nil
+	gc.Schedule = sched
+	closed := nbio.VerifClosed(c)
+	finalR := int(nbio.VerifReadEvents(c))
+	if !closed {
+		// not through Conn.Close: its close notification would run on an unmanaged goroutine into the next case's
+		// exclusive scheduler run; the Conn object is dropped with its engine
+		syscall.Close(fds[0])
+	}
+	for _, e := range events {
+		gc.Events = append(gc.Events, fmt.Sprintf("%s:%s %d %d r=%d", e.Th, e.Op, e.A, e.B, e.R))
+	}
+	if verbose {
+		fmt.Printf("gate case %d: buf=%d script=%v\nevents=%v\nterminated=%v closed=%v r=%d delivered %d of %d tasks %d max %d\n",
+			cseed, bufLen, gc.Script, gc.Events, terminated, closed, finalR, len(delivered), len(sent), started, maxRun)
+	}
+	rep.Ops += len(events)
+	contended := false
+	for _, e := range events {
+		if e.Op == "gate" && e.A >= 1 {
+			contended = true
+		}
+	}
+	rep.Case(fmt.Sprint(gc.Script, sched), contended)
+	rep.Stat("G.cases")
+	if contended {
+		rep.Stat("G.event-while-task-alive")
+	}
+	if half {
+		rep.Stat("G.half-close")
+	}
+	if casRetry > 0 {
+		rep.Stat("G.cas-lost-against-the-task's-decrement")
+	}
+	if started > 1 {
+		rep.Stat("G.task-ended-and-a-later-event-started-another")
+	}
+	for _, e := range events {
+		switch {
+		case e.Op == "gate" && e.B == 0 && e.A >= 2:
+			rep.Stat("G.event-dropped-at-2")
+		case e.Op == "gate" && e.A == 1:
+			rep.Stat("G.raised-1-to-2")
+		case e.Op == "dec" && e.A >= 1:
+			rep.Stat("G.task-makes-another-pass")
+		case e.Op == "mark" && e.R == 0:
+			rep.Stat("G.half-close-with-no-task-alive")
+		case e.Op == "mark" && e.R >= 1:
+			rep.Stat("G.half-close-while-task-alive")
+		case e.Op == "check" && e.A == 1:
+			rep.Stat("G.task-sees-readEOF")
+		}
+	}
+	if rep.Cases%997 == 0 {
+		rep.Sample(gc)
+	}
+
+	// the observer hooks must have fired: without them the schedule exploration and the correspondence are blind
+	nGate, nRead := 0, 0
+	for _, e := range events {
+		if e.Op == "gate" {
+			nGate++
+		}
+		if e.Op == "read" {
+			nRead++
+		}
+	}
+	if nGate == 0 || (started > 0 && nRead == 0) {
+		rep.Add(hx.Finding{Kind: "mismatch", Property: "C02", Signature: "gate-hooks-missing",
+			What: fmt.Sprintf("gate case %d: AsyncRead ran (%d tasks) but %d gate operations and %d reads were observed: the overlay rules of "+
+				"overlay/rules_readpath.py no longer match the atomic operations / the read call of conn_unix.go", cseed, started, nGate, nRead),
+			Replay: map[string]interface{}{"case": gc}})
+		return
+	}
+
+	// ---- oracle on the implementation alone
+	add := func(sig, what string) {
+		rep.Add(hx.Finding{Kind: "oracle", Property: "C02", Signature: sig, What: fmt.Sprintf("gate case %d: %s", cseed, what),
+			Replay: map[string]interface{}{"case": gc, "rerun": fmt.Sprintf("readpath -noreal -gateseed %d", cseed)}})
+	}
+	if !terminated {
+		add("idle-spin-gate", fmt.Sprintf("the run does not end within %d scheduling steps: %v (readEvents = %d): a read task never terminates", s.MaxSteps, s.Stuck(), finalR))
+	}
+	if maxRun > 1 {
+		add("two-readers", fmt.Sprintf("%d read tasks of one connection ran at the same time", maxRun))
+	}
+	if badR != "" {
+		add("gate-counter-out-of-range", badR)
+	}
+	if terminated {
+		switch {
+		case !bytes.Equal(delivered, sent) && len(delivered) < len(sent) && bytes.Equal(delivered, sent[:len(delivered)]):
+			if closed {
+				add("tail-lost-at-eof-gate", fmt.Sprintf("%d of %d bytes delivered and the connection is closed", len(delivered), len(sent)))
+			} else {
+				add("stall-gate", fmt.Sprintf("%d of %d bytes delivered, no task is alive and no event is owed (readEvents = %d): a readiness edge was lost", len(delivered), len(sent), finalR))
+			}
+		case !bytes.Equal(delivered, sent):
+			add("lost-or-reordered-bytes-gate", fmt.Sprintf("delivered %d bytes, sent %d, content differs", len(delivered), len(sent)))
+		}
+		if !closed && finalR != 0 {
+			add("gate-counter-out-of-range", fmt.Sprintf("readEvents = %d at quiescence with the connection open (must be 0)", finalR))
+		}
+		if eofSent && !closed {
+			add("stall-gate", "the peer shut down its sending side and the event was dispatched, but the connection was never closed")
+		}
+		if !eofSent && closed {
+			add("lost-or-reordered-bytes-gate", "the connection was closed although the peer never shut down")
+		}
+	}
+
+	// ---- correspondence with the extracted LTS
+	if model == nil || !terminated {
+		return
+	}
+	mism := func(what string) {
+		rep.Add(hx.Finding{Kind: "mismatch", Property: "C02", Signature: "gatemodel", What: fmt.Sprintf("gate case %d: %s", cseed, what),
+			Replay: map[string]interface{}{"case": gc, "rerun": fmt.Sprintf("readpath -noreal -gateseed %d -model <path>", cseed)}})
+	}
+	model.Ask("reset")
+	nd := 0
+	for i, e := range events {
+		var ans string
+		switch e.Op {
+		case "arrive":
+			parts := make([]string, len(e.Bytes))
+			for k, b := range e.Bytes {
+				parts[k] = fmt.Sprint(int(b))
+			}
+			ans = model.Ask("arrive %s", strings.Join(parts, " "))
+		case "read":
+			ans = model.Ask("read %d", e.A)
+			if e.B > 0 {
+				nd += e.B
+			}
+		default:
+			ans = model.Ask("%s", e.Op)
+		}
+		var en, mr, sp, ed, fl, cl, mnd, mna, mnt int
+		var ph string
+		if _, err := fmt.Sscanf(ans, "%d r=%d t=%s sp=%d e=%d f=%d c=%d nd=%d na=%d nt=%d", &en, &mr, &ph, &sp, &ed, &fl, &cl, &mnd, &mna, &mnt); err != nil {
+			hx.Fatal("model answer %q: %v", ans, err)
+		}
+		if en != 1 {
+			mism(fmt.Sprintf("event %d (%s by %s): the implementation took a step that is not enabled in the model (model state: %s)", i, e.Op, e.Th, ans))
+			return
+		}
+		// the hook runs right behind the operation, so the counter it saw is the model's counter after the action
+		// (spawn: the hand-over itself does not touch the counter)
+		if mr != e.R {
+			mism(fmt.Sprintf("event %d (%s by %s): readEvents = %d, model %d (%s)", i, e.Op, e.Th, e.R, mr, ans))
+			return
+		}
+		if mnd != nd {
+			mism(fmt.Sprintf("event %d (%s): %d bytes read so far, model %d (%s)", i, e.Op, nd, mnd, ans))
+			return
+		}
+	}
+	ans := model.Ask("gate") // a disabled probe: only to read the final state
+	var en, mr, sp, ed, fl, cl, mnd, mna, mnt int
+	var ph string
+	fmt.Sscanf(ans, "%d r=%d t=%s sp=%d e=%d f=%d c=%d nd=%d na=%d nt=%d", &en, &mr, &ph, &sp, &ed, &fl, &cl, &mnd, &mna, &mnt)
+	if en != 0 || ph != "N" || sp != 0 {
+		mism(fmt.Sprintf("the implementation is quiescent (all threads ended) but the model is not: %s", ans))
+		return
+	}
+	if (cl == 1) != closed {
+		mism(fmt.Sprintf("closed = %v, model closed = %d (%s)", closed, cl, ans))
+	}
+	md := model.Ask("delivered")
+	var want []byte
+	for _, f := range strings.Fields(md) {
+		var v int
+		fmt.Sscan(f, &v)
+		want = append(want, byte(v))
+	}
+	if !bytes.Equal(want, delivered) {
+		mism(fmt.Sprintf("delivered sequence differs from the model's (%d vs %d bytes)", len(delivered), len(want)))
+	}
+}
